@@ -361,6 +361,10 @@ Section Model.
           else apply_steps tbl tl fields
       | RSetAttr f p :: tl =>
           match get_path tbl p with Some e => apply_steps tbl tl (set_assoc f e fields) | None => Err EInternal end
+      | RDrop f :: tl => apply_steps tbl tl (del_assoc f fields)             (* filtered out / pop(f, None): no KeyError *)
+      | RDropIf c f :: tl =>
+          do b <- rcond_eval tbl c;
+          if b then apply_steps tbl tl (del_assoc f fields) else apply_steps tbl tl fields
       end.
     Fixpoint dict_entries (tbl : attr_tbl) (ents : list (string * list string)) : result (list (string * entry)) :=
       match ents with
